@@ -205,8 +205,10 @@ def check_C46(ctx):
     # 1. tables evaluated by TLC: one state per input, laws of the decoder as invariants
     rb = ctx.tlc(RLP_FILES, "MC_RlpEnum", "MC_RlpEnum_b4.cfg" if ctx.quick else "MC_RlpEnum_b5.cfg",
                  workers=cores, tag="rlp-boundary", timeout=1500)
-    ra = ctx.tlc(RLP_FILES, "MC_RlpEnum", "MC_RlpEnum_all2.cfg" if ctx.quick else "MC_RlpEnum_all3.cfg",
-                 workers=cores, tag="rlp-allbytes", timeout=2400)
+    ra = ctx.tlc(RLP_FILES, "MC_RlpEnum", "MC_RlpEnum_all2.cfg", workers=cores, tag="rlp-allbytes", timeout=2400)
+    tables = [(rb, "2" if ctx.quick else "8"), (ra, "4")]
+    if not ctx.quick:      # every 3-byte string whose first byte is a boundary byte (19 x 65536 + shorter ones)
+        tables.append((ctx.tlc(RLP_FILES, "MC_RlpEnum", "MC_RlpEnum_all3.cfg", workers=cores, tag="rlp-allbytes3", timeout=3000), "32"))
     cases = rlp_cases(ctx.seed, ctx.quick)
     cf = os.path.join(ctx.work, "cases.ndjson")
     write_ndjson(cf, cases)
@@ -215,11 +217,10 @@ def check_C46(ctx):
     if rc.distinct != ninputs + len(cases) + 1:      # one state per input + the fan-out states (start, one per case)
         raise Infra("case table has %d states for %d cases / %d inputs" % (rc.distinct, len(cases), ninputs))
     # 2. the real decoders on every row (Go API on all rows, Cadence scripts on both engines on all generated
-    #    cases and on a hash-selected share of the enumerated tables: 1/2 and 1/4 quick, 1/8 and 1/64 thorough)
-    modes = ["2", "4", "all"] if ctx.quick else ["8", "64", "all"]
-    summary, fails = run_driver(ctx, binary, "rlp",
-                                ["%s=%s" % (tlc_out(r), m) for r, m in zip((rb, ra, rc), modes)], "rlp", timeout=3000)
-    expected_rows = rb.distinct + ra.distinct + ninputs
+    #    cases and on a hash-selected share of the enumerated tables: 1/2 and 1/4 quick, 1/8, 1/4 and 1/32 thorough)
+    tables.append((rc, "all"))
+    summary, fails = run_driver(ctx, binary, "rlp", ["%s=%s" % (tlc_out(r), m) for r, m in tables], "rlp", timeout=3000)
+    expected_rows = sum(r.distinct for r, _ in tables[:-1]) + ninputs
     if summary["rows"] != expected_rows:
         raise Infra("driver judged %d rows, TLC printed %d" % (summary["rows"], expected_rows))
     for f in fails:
@@ -249,8 +250,8 @@ def check_C46(ctx):
                     "mutants": len(cases[23]["m"]), "first_mutants_hex": [bytes(m).hex()[:60] for m in cases[23]["m"][:4]]})
     ctx.add_sample({"extreme length prefix": "bf7fffffffffffffff", "spec": "payload-beyond-input, class edge63 (offset+length leaves int64)"})
     return ctx.finish({
-        "states": rb.distinct + ra.distinct + rc.distinct,
-        "transitions": rb.generated + ra.generated + rc.generated - 3,
+        "states": sum(r.distinct for r, _ in tables),
+        "transitions": sum(r.generated for r, _ in tables) - len(tables),
         "traces_validated_against_impl": summary["rows"],
         "evaluations": summary["go_evals"] + summary["cadence_evals"],
         "go_api_evaluations": summary["go_evals"], "cadence_script_evaluations": summary["cadence_evals"],
@@ -604,6 +605,7 @@ def check_C35(ctx):
         "rule": "LEB128: table values whose encoding has more than one byte (continuation logic exercised), each a distinct value; "
                 "instructions: distinct (opcode, operands) values round-tripped; compile events are counted separately",
         "leb128_length_classes": ls["length_classes"],
+        "leb128_values_checked_on_model": (rn.distinct - 1 - (rn.distinct - 1 + 32) // 33) * 256 * 3,
         "instructions_from_corpus": isum["corpus_instructions"], "instructions_generated": isum["generated_instructions"],
         "opcodes_covered": isum["opcodes"], "decodable_opcodes": isum["decodable_opcodes"],
         "programs": len(corpus), "compilations": len(trace), "processes": len(procs), "rounds_per_process": rounds,
@@ -754,7 +756,7 @@ def check_C17(ctx):
     write_ndjson(nf, [c1, c2, c3, c4])
     _, nfails = run_driver(ctx, binary, "numtext", [nf], "numtext-negctl")
     devs = {(f["op"], f["dev"]) for f in nfails}
-    need = {("fromString", "wrong-value"), ("fromString", "accepts-specified-nil"), ("toString", "wrong-text"), ("fromBigEndianBytes", "accepts-specified-nil")}
+    need = {("fromString", "wrong-value"), ("fromString", "accepts-specified-nil"), ("toString", "wrong-text"), ("fromBigEndianBytes", "nil-for-specified-value")}
     if not need <= devs:
         raise Infra("negative control failed: corrupted rows not all rejected: %s" % sorted(devs))
     erows = [r for r in table_rows(re_) if r[3]]
@@ -772,7 +774,7 @@ def check_C17(ctx):
         "distinct_cases": summary["distinct"],
         "enumerated_strings": re_.distinct, "string_type_pairs": re_.distinct * 24,
         "boundary_cases": len(cases), "scripts": summary["scripts"],
-        "negative_control": "4 corrupted rows (value digit, accept->nil, toString text, over-long bytes accepted) all rejected",
+        "negative_control": "4 corrupted rows (value digit, accept->nil, toString text, over-long bytes expected non-nil) all rejected",
         "exhaustive": True,
     }, assumptions=["sign rule per class taken from the fixed-width parsers (signed: +/-, unsigned integer: none, unsigned fixed: +); the reference only says invalid input gives nil",
                     "fromBigEndianBytes with fewer bytes than the type's size: the bytes are the low-order bytes (zero padding); the property only fixes the round trip and the nil rule",
@@ -921,10 +923,13 @@ def check_C40(ctx):
         "rule": "distinct (type, literal text) pairs; non-trivial = the literal contains a digit (well-formed, or ill-formed only by an underscore / "
                 "digit-of-base rule) or, for strings, an escape sequence",
         "distinct_cases": summary["distinct"], "generated_cases": len(cases),
+        "ill_formed_strings_tolerated_by_lexer_not_judged": summary["ill_formed_tolerated"],
         "negative_control": "4 corrupted rows (int value digit, accept->reject, fixed value digit, string code point) all rejected",
         "exhaustive": True,
     }, assumptions=["literals are checked in the context `let x: T = <literal>` with T an integer type for integer literals and a fixed-point type for fixed-point literals",
                     "string literal tokens use NFC-stable characters only (normalisation is property C19's subject)",
+                    "strings that are not literals of the grammar (misplaced underscores, digits outside the base, \\u{} without digits) are outside the "
+                    "property's domain: enumerated and counted, but their acceptance is not judged",
                     "values of accepted literals are read back through script results"])
 
 
@@ -932,13 +937,13 @@ META = {
     "C46": {
         "level_text": "TLC evaluates the RLP decoder specification (Rlp.tla: encoder = definition of canonical, DecodeString, one-level DecodeList, "
                       "recursive Deep) on one state per input: every byte string over a 19-byte boundary alphabet up to length 4 (5 thorough), every "
-                      "byte string up to length 2 (3 thorough), and the encoder's images of seeded random nested items plus header mutants "
+                      "byte string up to length 2 (thorough: also every 3-byte string whose first byte is one of the 19 boundary bytes), and the encoder's images of seeded random nested items plus header mutants "
                       "(every long form with leading zeros, off-by-one lengths, declared lengths up to 2^64-1, truncation, extension, kind flip, "
                       "also on direct list items). Laws checked by TLC on every state: accepted implies re-encoding gives the input, the three "
                       "decoders agree, Deep(Enc(t)) = t. Every row is compared with stdlib/rlp.DecodeString/DecodeList, with recursive decoding "
                       "through that API, and with RLP.decodeString/decodeList scripts on interpreter and VM (value, user error, never internal).",
         "level_note": "Trusted: TLC, the JSON row printer, the Go comparison loop. Bounded: inputs < 2^24 bytes; beyond the enumerated lengths only "
-                      "generated cases. The Cadence wrappers are exercised on all rows in the quick tier and a hash-selected share of the big tables in the thorough tier.",
+                      "generated cases. The Cadence wrappers (scripts on both engines) are exercised on all generated cases and on a hash-selected share of the enumerated tables (1/2 and 1/4 quick; 1/8, 1/4, 1/32 thorough); the Go API on every row.",
         "technique": "TLA+ function specification model-checked with TLC (laws as invariants), TLC-evaluated table compared with the real functions (E4)",
         "design_ref": "DESIGN.md section 5 C46, Appendix A.5",
         "engine": "E4 table conformance",
